@@ -129,7 +129,8 @@ class Sched:
     def tracer(frame, event, arg):
       if event == "call":
         co = frame.f_code
-        if (os.path.basename(co.co_filename), co.co_name) in want:
+        base = os.path.basename(co.co_filename)
+        if (base, co.co_name) in want or (base, "*") in want:
           return local
       return None
     return tracer
